@@ -31,6 +31,9 @@ type c12Case struct {
 	// LateTB: the cluster starts with table ta only; the fault "add-tb" adds tb (other partition key) to every node
 	// while the followers are already following
 	LateTB bool `json:"late_tb,omitempty"`
+	// PreFlushed: a non-initial start state - one point has been delivered and flushed by every table of every
+	// follower before the schedule begins, so every table has a stored offset
+	PreFlushed bool `json:"pre_flushed,omitempty"`
 }
 
 // fault alphabet
@@ -80,6 +83,31 @@ func c12Run(c *fw.Ctx, cs c12Case) {
 	}
 	defer sdb.Close()
 	pts := c12Points()[:cs.Inserts]
+	if cs.PreFlushed {
+		pre := dbdrv.Point{TS: sec / 2, Dims: map[string]interface{}{"x": 9, "y": "z", "r": "A"}, Vals: map[string]interface{}{"a": 4096.0}}
+		pre2 := dbdrv.Point{TS: sec / 2, Dims: map[string]interface{}{"x": 8, "y": "y", "r": "A"}, Vals: map[string]interface{}{"a": 8192.0}}
+		for _, p := range []dbdrv.Point{pre, pre2} {
+			if err := cl.Insert(0, "s", p); err != nil {
+				c.Incomplete("cluster insert: " + err.Error())
+				return
+			}
+			if err := sdb.Insert("s", p); err != nil {
+				c.Incomplete("standalone insert: " + err.Error())
+				return
+			}
+		}
+		if !cl.Quiesce() {
+			c.Incomplete("quiescence timeout in the start state")
+			return
+		}
+		for _, f := range cl.Followers {
+			f.Flush("")
+		}
+		if !cl.Quiesce() {
+			c.Incomplete("quiescence timeout in the start state")
+			return
+		}
+	}
 	images := map[int]string{}
 	harnessFail := ""
 	addTB := func() {
@@ -196,7 +224,7 @@ func c12Run(c *fw.Ctx, cs c12Case) {
 			}
 		}
 		if harnessFail != "" {
-			c.Incomplete(harnessFail + fmt.Sprintf(" (case %+v)", cs))
+			c.Incomplete(harnessFail + fmt.Sprintf(" (case %+v); %s", cs, cl.DebugState()))
 			return
 		}
 		if pos < len(pts) {
@@ -210,7 +238,7 @@ func c12Run(c *fw.Ctx, cs c12Case) {
 			}
 			c.Transition(1)
 			if !cl.Quiesce() {
-				c.Incomplete(fmt.Sprintf("quiescence timeout after insert %d (case %+v)", pos, cs))
+				c.Incomplete(fmt.Sprintf("quiescence timeout after insert %d (case %+v); %s", pos, cs, cl.DebugState()))
 				return
 			}
 		}
@@ -236,7 +264,7 @@ func c12Run(c *fw.Ctx, cs c12Case) {
 		return
 	}
 	if !cl.Quiesce() {
-		c.Incomplete(fmt.Sprintf("quiescence timeout after healing (case %+v)", cs))
+		c.Incomplete(fmt.Sprintf("quiescence timeout after healing (case %+v); %s", cs, cl.DebugState()))
 		return
 	}
 	cl.SetClock(sdb.Now)
@@ -248,6 +276,9 @@ func c12Run(c *fw.Ctx, cs c12Case) {
 		late := ""
 		if cs.LateTB {
 			late = " (cluster started with ta only)"
+		}
+		if cs.PreFlushed {
+			late += " (start state: two points delivered and flushed by every table)"
 		}
 		return fmt.Sprintf("leaders=%d followers/partition=%d inserts=%d faults [%s]%s", cs.Leaders, cs.Red, cs.Inserts, strings.Join(fs, " "), late)
 	}
@@ -363,7 +394,7 @@ func init() {
 		Level:       "model_checking",
 		NoThreads:   true,
 		Pre:         c12RunTLC,
-		Rule:        "in-process cluster (1-2 leaders, 2 partitions, 1-2 followers per partition), two tables on one stream with different partition keys (ta by x; tb by y with a WHERE) so that per-table offsets on a follower diverge; base schedule of 3 (quick) / 4 (thorough) inserts delivered eagerly plus every placement of <=2 (quick) / <=3 on the focus follower (thorough) fault events {flush ta only, flush all, clean stop/start, crash (restart from the directory image of that instant), cut, reconnect, gate (delay), ungate, restart leader, snapshot, restore (restart from the older image)} at every position, plus the same with tb added to every node while the followers are already following (late subscription) at every position, alone and with every single fault before or after it, enabledness respected; every event runs to exact quiescence; at the end all nodes are healed and caught up; oracle: per table the rows summed over partitions equal a standalone DB fed the same points (no point lost, none applied twice), redundant followers identical, leader queries equal standalone; non-trivial = schedule with a fault after the first insert",
+		Rule:        "in-process cluster (1-2 leaders, 2 partitions, 1-2 followers per partition), two tables on one stream with different partition keys (ta by x; tb by y with a WHERE) so that per-table offsets on a follower diverge; base schedule of 3 (quick) / 4 (thorough) inserts delivered eagerly plus every placement of <=2 (quick) / <=3 on the focus follower (thorough) fault events {flush ta only, flush all, clean stop/start, crash (restart from the directory image of that instant), cut, reconnect, gate (delay), ungate, restart leader, snapshot, restore (restart from the older image)} at every position, from the empty cluster and (1 leader, 1 follower per partition) from a state in which every table of every follower already has a stored offset, plus the same with tb added to every node while the followers are already following (late subscription) at every position, alone and with every single fault before or after it, enabledness respected; every event runs to exact quiescence; at the end all nodes are healed and caught up; oracle: per table the rows summed over partitions equal a standalone DB fed the same points (no point lost, none applied twice), redundant followers identical, leader queries equal standalone; non-trivial = schedule with a fault after the first insert",
 		Assumptions: []string{"reconnect policy of server.followSource re-implemented in the cluster driver (same Follow request, EarliestOffset advanced to the last inserted entry)", "a crash image is taken at quiescence (no kill instants inside a flush; those are C02's subject)"},
 		Shards:      func(tier string) int { return 16 },
 		Budget: func(tier string) time.Duration {
@@ -408,6 +439,7 @@ func init() {
 				}
 			}
 			var idx int64
+			preFlushed := false
 			run := func(cf cfg, seq []c12Fault) bool {
 				if !c12Enabled(seq) {
 					return true
@@ -420,10 +452,16 @@ func init() {
 					c.Incomplete("time budget used up")
 					return false
 				}
-				cs := c12Case{Leaders: cf.leaders, Red: cf.red, Inserts: inserts, Faults: seq}
+				cs := c12Case{Leaders: cf.leaders, Red: cf.red, Inserts: inserts, Faults: seq, PreFlushed: preFlushed}
 				c.Eval(1)
 				c.Trace(1)
 				c.State(fmt.Sprint(cs))
+				if preFlushed {
+					c.Nontrivial(fmt.Sprint(cs))
+					if len(seq) == 2 {
+						c.Sample("pre-flushed", cs)
+					}
+				}
 				for _, ft := range seq {
 					if ft.Pos > 0 {
 						c.Nontrivial(fmt.Sprint(cs))
@@ -440,6 +478,17 @@ func init() {
 					return
 				}
 			}
+			// the same schedules from a non-initial state in which every table already has a stored offset
+			preFlushed = true
+			for _, seq := range seqs {
+				if len(seq) == 0 {
+					continue
+				}
+				if !run(cfgs[0], seq) {
+					return
+				}
+			}
+			preFlushed = false
 			// other configurations: single faults (quick) / pairs on the focus follower (thorough)
 			for _, cf := range []cfg{{2, 1}, {1, 2}, {2, 2}} {
 				for _, seq := range seqs {
